@@ -17,6 +17,8 @@ import (
 	"github.com/siglens/siglens/pkg/segment/query/iqr"
 	"github.com/siglens/siglens/pkg/segment/query/processor"
 	sutils "github.com/siglens/siglens/pkg/segment/utils"
+
+	"verifharness/vhlib"
 )
 
 // one upstream: a list of row ranges (blocks) of the table
@@ -25,7 +27,7 @@ type blockStreamer struct {
 	t      *Table
 	blocks [][2]int
 	pos    int
-	sparse bool // a column whose cells are all null in a block is absent from that block
+	sparse bool // column b is absent from a block in which all its cells are null
 }
 
 func (s *blockStreamer) Fetch() (*iqr.IQR, error) {
@@ -46,7 +48,7 @@ func (s *blockStreamer) Fetch() (*iqr.IQR, error) {
 			}
 			vals = append(vals, enclosure(s.t.Rows[r][ci]))
 		}
-		if s.sparse && !any {
+		if s.sparse && !any && c == "b" {
 			continue
 		}
 		kv[c] = vals
@@ -160,6 +162,281 @@ func runPlanned(spl string, t *Table, sizes []int, procs int, sparse bool) (res 
 			return
 		}
 	}
+}
+
+// ---------- the planned stream ----------
+type planSpec struct {
+	Family string // class prefix
+	SPL    string
+	Cmp    int
+	Drop   []string
+	Sparse bool
+	Model  func(cc *coqCtx) string // Coq list of commands, "" = none
+}
+
+func gstatsOn(by []string) func(cc *coqCtx) string {
+	return func(cc *coqCtx) string {
+		return fmt.Sprintf("(gstats_cmd %s %s %s %s)", cc.fieldList(by), cc.field("v"), cc.field("count(*)"), cc.field("sum(v)"))
+	}
+}
+
+func planSpecs() []planSpec {
+	binM := func(maxbins int) func(cc *coqCtx) string {
+		return func(cc *coqCtx) string {
+			return fmt.Sprintf("[whole_cmd (tp_sem (bin_tp %s %d)); %s]", cc.field("lat"), maxbins, gstatsOn([]string{"lat"})(cc))
+		}
+	}
+	return []planSpec{
+		// two-pass commands in front of an aggregation: the planner must keep ONE chain
+		{"bin", "bin lat | stats count, sum(v) by lat", cmpMultiset, nil, false, binM(100)},
+		{"bin", "bin bins=3 lat | stats count, sum(v) by lat", cmpMultiset, nil, false, binM(3)},
+		{"bin", "bin lat | sort lat, id", cmpOrdered, nil, false, nil},
+		{"bin", "bin bins=5 lat | top lat", cmpCounts, []string{"percent"}, false, nil},
+		{"bin", "where v>=0 | bin lat as lb | stats count by lb", cmpMultiset, nil, false, nil},
+		{"fillnull", "fillnull value=0 | stats count, sum(v) by b", cmpMultiset, nil, true, func(cc *coqCtx) string {
+			return fmt.Sprintf("[whole_cmd (tp_sem (fillnull_tp (VStr %s))); %s]", vhlib.CoqStr("0"), gstatsOn([]string{"b"})(cc))
+		}},
+		{"fillnull", "fillnull value=0 | top b", cmpCounts, []string{"percent"}, true, nil},
+		{"fillnull", "eval w=v*2 | fillnull value=7 | stats count by b, g", cmpMultiset, nil, true, nil},
+		// chains the planner may clone per CPU and merge
+		{"parallel_stats", "where v>=0 | stats count, sum(v) by a", cmpMultiset, nil, false, func(cc *coqCtx) string {
+			return fmt.Sprintf("[rowwise_cmd (fun r => match get r %s with VNum z => if (0 <=? z)%%Z then [r] else [] | _ => [] end); %s]", cc.field("v"), gstatsOn([]string{"a"})(cc))
+		}},
+		{"parallel_stats", "bin span=10 lat | stats count, sum(v) by lat", cmpMultiset, nil, false, nil},
+		{"parallel_stats", "fillnull value=0 v | stats sum(v) by g", cmpMultiset, nil, false, nil},
+		{"parallel_stats", "eval w=v*2 | stats sum(w), count by a, g", cmpMultiset, nil, true, nil},
+		{"parallel_sort", "eval w=v*2 | sort w, id", cmpOrdered, nil, false, nil},
+		{"parallel_sort", "where v>0 | sort -v, id | head 3", cmpOrdered, nil, false, nil},
+		{"parallel_top", "eval w=v*2 | top a", cmpCounts, []string{"percent"}, false, nil},
+		{"parallel_top", "where v>=0 | rare g", cmpCounts, []string{"percent"}, false, nil},
+		// order-sensitive command first: one chain
+		{"ordered", "dedup a | stats count by a", cmpMultiset, nil, false, nil},
+		{"ordered", "head 5 | sort v, id", cmpOrdered, nil, false, nil},
+		{"ordered", "streamstats count as c | stats max(c) by g", cmpMultiset, nil, false, nil},
+	}
+}
+
+// value range differs from block to block (cluster = block of 3 rows), column b exists only in
+// the rows of cluster 1
+func genClustered(r *vhlib.Rng, n int) *Table {
+	t := &Table{Cols: []string{tsCol, "id", "a", "b", "g", "v", "lat"}}
+	g := "p"
+	for i := 0; i < n; i++ {
+		cluster := (i / 3) % 4
+		row := make([]Cell, len(t.Cols))
+		row[0] = Cell{K: 'i', I: int64(1700000000000 - i*1000)}
+		row[1] = Cell{K: 'i', I: int64(i)}
+		if !r.Chance(10) {
+			row[2] = Cell{K: 's', S: vhlib.Pick(r, []string{"x", "y", "z"})}
+		}
+		if cluster == 1 {
+			row[3] = Cell{K: 's', S: "q"}
+		}
+		if !r.Chance(60) {
+			g = vhlib.Pick(r, []string{"p", "q"})
+		}
+		row[4] = Cell{K: 's', S: g}
+		if !r.Chance(10) {
+			row[5] = Cell{K: 'i', I: int64(r.Intn(7))}
+		}
+		row[6] = Cell{K: 'i', I: int64(1000*cluster + r.Intn(10))}
+		t.Rows = append(t.Rows, row)
+	}
+	return t
+}
+
+func blocksOf(n, k int) []int {
+	var out []int
+	for left := n; left > 0; left -= k {
+		if left < k {
+			out = append(out, left)
+		} else {
+			out = append(out, k)
+		}
+	}
+	return out
+}
+
+func coqBool(b bool) string {
+	if b {
+		return "t"
+	}
+	return "f"
+}
+
+func runPlannedStream(cfg vhlib.Config, sum *vhlib.Summary, rng *vhlib.Rng) {
+	nTables := 5
+	if cfg.Thorough() {
+		nTables = 30
+	}
+	var tables []*Table
+	tr := rng.Fork()
+	for i := 0; i < nTables; i++ {
+		n := 12 + 3*tr.Intn(9)
+		if i == 0 {
+			n = 36
+		}
+		if i == 1 {
+			n = 6
+		}
+		tables = append(tables, genClustered(tr, n))
+	}
+	cf := newCaseFile("cases_planned")
+	shard := 0
+	for _, s := range planSpecs() {
+		for ti, t := range tables {
+			if cf.size() > 300000 {
+				cf.flush(sum, cfg.Out)
+				shard++
+				cf = newCaseFile(fmt.Sprintf("cases_planned_%d", shard))
+			}
+			n := len(t.Rows)
+			in := t.crows()
+			ref := runChain(s.SPL, t, []int{n}, false)
+			sum.Count("planned/" + s.Family)
+			if ref.Err != "" {
+				sum.Fail(s.Family+"_error", fmt.Sprintf("%q on %d rows, one stream: %s", s.SPL, n, ref.Err), failCase{SPL: s.SPL, Table: rowsStr(in), Note: ref.Err})
+				continue
+			}
+			sp := &Spec{Cmp: s.Cmp}
+			refRows := project(ref.Rows, s.Drop)
+			layouts := [][]int{blocksOf(n, 3), blocksOf(n, 1), blocksOf(n, 2), blocksOf(n, 6)}
+			{
+				var c []int
+				for left := n; left > 0; {
+					k := 1 + tr.Intn(5)
+					if k > left {
+						k = left
+					}
+					c = append(c, k)
+					left -= k
+				}
+				layouts = append(layouts, c)
+			}
+			agree := true
+			for _, sizes := range layouts {
+				for _, procs := range []int{1, 4} {
+					pr := runPlanned(s.SPL, t, sizes, procs, s.Sparse)
+					sum.Eval(fmt.Sprintf("planned|%s|%d|%v|%d", s.SPL, ti, sizes, procs), pr.Chains > 1)
+					sum.Count(fmt.Sprintf("planned_chains/%d", pr.Chains))
+					rows := project(pr.Rows, s.Drop)
+					if pr.Err != "" || !same(sp, rows, refRows) {
+						agree = false
+						sum.Fail(s.Family+"_stream_split_dependent",
+							fmt.Sprintf("%q: %d rows in blocks %v dealt to %d parallel chain(s) built by SetupQueryParallelism (GOMAXPROCS %d, CanParallelSearch = %v,%d) give %s; the same rows through one stream give %s%s",
+								s.SPL, n, sizes, pr.Chains, procs, pr.CanPar, pr.MergeIdx, firstDiff(rowsStr(rows), rowsStr(refRows)), "", errNote(pr.Err)),
+							map[string]interface{}{"spl": s.SPL, "table_rows": rowsStr(in), "block_sizes": sizes, "gomaxprocs": procs, "chains": pr.Chains,
+								"sparse_columns": s.Sparse, "got": rowsStr(rows), "want": rowsStr(refRows), "err": pr.Err})
+					}
+				}
+			}
+			if ti == 0 {
+				sum.Sample(map[string]interface{}{"planned_spl": s.SPL, "rows": n, "block_layouts": layouts, "one_stream_result": rowsStr(refRows)})
+			}
+			if s.Model == nil || !agree {
+				continue
+			}
+			tname := fmt.Sprintf("tp_%d", ti)
+			if !strings.Contains(cf.defs.String(), "Definition "+tname+" ") {
+				ts, ok := cf.cc.rows(in) // nulls omitted: an absent column and a null cell are the same here
+				if !ok {
+					continue
+				}
+				fmt.Fprintf(&cf.defs, "Definition %s : batch := %s.\n", tname, ts)
+			}
+			exp, ok := cf.cc.rows(refRows)
+			if !ok {
+				continue
+			}
+			fn := "chk_chain"
+			if s.Cmp == cmpMultiset {
+				fn = "chk_chain_perm"
+			}
+			cf.checks = append(cf.checks, fmt.Sprintf("%s %s %s %s %s", fn, s.Model(cf.cc), tname, coqCuts([][]int{{n}, blocksOf(n, 3), blocksOf(n, 1)}), exp))
+			cf.ncases += 3
+		}
+	}
+	cf.flush(sum, cfg.Out)
+	runPlannerCases(cfg, sum)
+}
+
+// every chain of length <= 3 over representative commands: the real CanParallelSearch on the
+// real DataProcessors against can_parallel on their flags, and the flags against flags_of
+func runPlannerCases(cfg vhlib.Config, sum *vhlib.Summary) {
+	type snip struct{ spl, kind string }
+	snips := []snip{{"where v>1", "R"}, {"eval w=v*2", "R"}, {"fields a, v", "R"}, {"bin span=2 v", "R"}, {"fillnull value=0 v", "R"},
+		{"rename a as aa", "R"}, {"head 3", "O"}, {"dedup a", "O"}, {"streamstats count as c", "O"}, {"tail 2", "B"},
+		{"bin v", "T"}, {"fillnull value=0", "T"}, {"stats count by a", "A"}, {"sort v", "A"}, {"top a", "A"}, {"rare a", "A"}}
+	var chains [][]snip
+	for _, a := range snips {
+		chains = append(chains, []snip{a})
+		for _, b := range snips {
+			chains = append(chains, []snip{a, b})
+			for _, c := range snips {
+				chains = append(chains, []snip{a, b, c})
+			}
+		}
+	}
+	hdr := "Definition t := true. Definition f := false.\nDefinition R := KRowwise. Definition O := KOrdered. Definition B := KOrderedAll. Definition T := KTwoPass. Definition A := KAgg.\nDefinition F := mkInfo.\n"
+	var items []string
+	nfile := 0
+	flush := func() {
+		if len(items) == 0 {
+			return
+		}
+		name := "cases_planner"
+		if nfile > 0 {
+			name = fmt.Sprintf("cases_planner_%d", nfile)
+		}
+		sum.WriteCaseFile(cfg.Out, name, "From SigM Require Import Base Pipe PipeCheck.", hdr, "chk_planner "+vhlib.CoqListNL(items), len(items))
+		nfile++
+		items = nil
+	}
+	for _, ch := range chains {
+		parts := make([]string, len(ch))
+		kinds := make([]string, len(ch))
+		for i, s := range ch {
+			parts[i] = s.spl
+			kinds[i] = s.kind
+		}
+		spl := strings.Join(parts, " | ")
+		var dps []*processor.DataProcessor
+		func() {
+			defer func() { _ = recover() }()
+			_, aggs, _, err := pipesearch.ParseQuery("* | "+spl, 0, "Splunk QL")
+			if err == nil {
+				dps = processor.AggsToDataProcessors(aggs, nil)
+			}
+		}()
+		if len(dps) != len(ch) {
+			sum.Count("planner_chain_skipped")
+			continue
+		}
+		can, idx := processor.CanParallelSearch(dps)
+		fl := flagsOf(dps)
+		fs := make([]string, len(fl))
+		for i, x := range fl {
+			fs[i] = fmt.Sprintf("F %s %s %s %s %s", coqBool(x.OrderMatters), coqBool(x.IgnoresOrder), coqBool(x.Bottleneck), coqBool(x.TwoPass), coqBool(x.Generates))
+		}
+		sum.Eval("planner|"+spl, len(ch) > 1)
+		sum.Count(fmt.Sprintf("planner/%v", can))
+		items = append(items, fmt.Sprintf("([%s], [%s], (%s, %d%%nat))", strings.Join(kinds, ";"), strings.Join(fs, "; "), coqBool(can), idx))
+		// oracle on the implementation: a chain may be split only over row-wise commands in front of an aggregation
+		if can {
+			ok := idx < len(ch) && ch[idx].kind == "A"
+			for i := 0; ok && i < idx; i++ {
+				ok = ch[i].kind == "R"
+			}
+			if !ok {
+				sum.Fail("planner_splits_non_rowwise_prefix", fmt.Sprintf("CanParallelSearch(%q) = true,%d: the chain would be cloned per CPU in front of command %d although a command before it needs the whole or the ordered input", spl, idx, idx),
+					map[string]interface{}{"spl": spl, "kinds": kinds, "decision": []interface{}{can, idx}})
+			}
+		}
+		if len(items) >= 2300 {
+			flush()
+		}
+	}
+	flush()
 }
 
 func probeMain(args []string) {
